@@ -34,6 +34,8 @@ PROGRAMS = [
     ("abstract-type-annotated", "type T\n    def f(x: Int?) -> Int\n", True),
     ("nested-optional-in-function", "def f(a: Int?) -> Int? => a", True),
     ("no-support-import-needed", "def x := 1\nprint(x)", True),
+    ("optional-and-union-and-tuple", "def x: Int? := None\ndef y: {Int, Str} := 1\ndef z: (Int, Str) := (1, \"a\")\ndef w: Int? := None\nprint(y)", True),
+    ("abstract-type-two-methods", "type T\n    def f(x: Int) -> Int\n    def g(x: Int) -> Int\n", False),
     ("docstring-after-first-use", 'def side := 16.0\ndef root := sqrt side\nprint(root)\n\n"""Helpers for optional values."""\n\ndef or_zero(x: Int?) -> Int => x ? 0\n\nprint(or_zero(4))\n', False),
     ("docstring-after-first-use-annotated", 'def side := 16.0\ndef root := sqrt side\nprint(root)\n\n"""Helpers for optional values."""\n\ndef or_zero(x: Int?) -> Int => x ? 0\n\nprint(or_zero(4))\n', True),
     ("newtype-then-sqrt", 'type Positive: Int when self > 0\n\ndef or_zero(x: Int?) -> Int => x ? 0\n\ndef hyp(a: Float, b: Float) -> Float => sqrt (a * a + b * b)\n\nprint(or_zero(4))\nprint(hyp(3.0, 4.0))\n', False),
@@ -268,6 +270,80 @@ def ob_add_import(run, mir, rp):
     e2.prove_each(run, ob, ex, [], claims, {"entry0.present": pres[0], "entry1.present": pres[1]}, fam_replay(rp, "add-import", only=["sqrt"]))
 
 
+def _sub(t):
+    seen, stack = {}, [t]
+    while stack:
+        x = stack.pop()
+        if x.get_id() in seen:
+            continue
+        seen[x.get_id()] = x
+        stack.extend(x.children())
+    return seen
+
+
+def ob_add_from_import(run, mir, rp):
+    ob = run.ob("add-from-import-merge", "E2", "Imports::add_from_import: exactly one entry is stored under the module name; for a module that "
+                "is already there the stored names are the old names (plus the new one if it was not among them, never twice), sorted, and "
+                "the aliases are kept; for a new module the entry imports just the new name", ["Imports::add_from_import"])
+    fn = e2.find1(mir, file=STATE_RS, impl="impl Imports", name="add_from_import")
+    ex = Exec(mir, max_paths=5000)
+    st = State()
+    selfr = Ref(ex.new_cell(st, Opq(z3.Const("self", Val), "Imports")))
+    frm, imp = Opq(z3.Const("from", Val), "&str"), Opq(z3.Const("import", Val), "&str")
+    ends = e2.run_kernel(run, ex, fn, [selfr, frm, imp], st)
+    claims = []
+    for p in ends:
+        if p.kind != "return":
+            raise Unsupported(f"unexpected path end {p}")
+        s = p.state
+        ins = [e_ for e_ in p.events if e_["name"].endswith("BTreeMap::insert")]
+        get = [e_ for e_ in p.events if e_["name"].endswith("BTreeMap::get")]
+        ok = len(ins) == 1 and len(get) == 1
+        cl = [z3.BoolVal(ok)]
+        if ok:
+            v = ins[0]["args"][2]
+            v = ex.read_ref(s, v) if isinstance(v, Ref) else v
+            good = isinstance(v, Agg) and v.variant == "Import"
+            cl.append(z3.BoolVal(good))
+            if good:
+                f_from, f_imp, f_al = (v.fields[list(v.names).index(n)] for n in ("from", "import", "alias"))
+                cl.append(ins[0]["argvals"][1] == frm.term)
+                cl.append(get[0]["argvals"][1] == frm.term)
+                is_from = isinstance(f_from, Agg) and f_from.variant == "Some" and isinstance(f_from.fields[0], Agg) and f_from.fields[0].variant == "Id"
+                cl.append(z3.BoolVal(is_from))
+                if is_from:
+                    cl.append(ex.to_val(s, f_from.fields[0].fields[0]) == frm.term)
+                new_id = None
+                if isinstance(f_imp, Seq):
+                    # fresh module (or an entry that is not an import): just the new name, no aliases
+                    fresh = len(f_imp.parts) == 1 and f_imp.parts[0][0] == "item" and isinstance(f_imp.parts[0][1], Agg) and f_imp.parts[0][1].variant == "Id"
+                    cl.append(z3.BoolVal(fresh and isinstance(f_al, Seq) and not f_al.parts))
+                    if fresh:
+                        cl.append(ex.to_val(s, f_imp.parts[0][1].fields[0]) == imp.term)
+                else:
+                    old = ex.project(s, ex.project(s, get[0]["ret"], ("v", "Some")), ("f", 0), "&Core")
+                    oldimp = ex.project(s, old, ("v", "Import"))
+                    lay = e2.rust_enum("src/generate/ast/node.rs", "Core")["Import"]
+                    old_names = ex.to_val(s, ex.project(s, oldimp, ("f", lay.index("import")), "Vec<Core>"))
+                    old_alias = ex.to_val(s, ex.project(s, oldimp, ("f", lay.index("alias")), "Vec<Core>"))
+                    t = ex.to_val(s, f_imp)
+                    sub = _sub(t)
+                    heads = [x.decl().name() for x in sub.values() if z3.is_app(x)]
+                    has_sorted = any("sorted" in h for h in heads)
+                    has_old = old_names.get_id() in sub
+                    cont = [e_ for e_ in p.events if e_["name"].split("::")[-1] == "contains"]
+                    has_new = any("mk:Core::Id" in x.decl().name() and x.children() and z3.eq(x.children()[0], imp.term) for x in sub.values() if z3.is_app(x))
+                    cl.append(z3.BoolVal(has_sorted and has_old and len(cont) == 1))
+                    if len(cont) == 1:
+                        c_ = cont[0]["ret"]
+                        # the new name is appended exactly when the old list does not contain it
+                        cl.append(z3.BoolVal(has_new) == z3.Not(c_) if z3.is_bool(c_) else z3.BoolVal(False))
+                        cl.append(cont[0]["argvals"][0] == old_names)
+                    cl.append(ex.to_val(s, f_al) == old_alias)
+        claims.append(z3.Implies(conj(p.cond), conj(cl)))
+    e2.prove_each(run, ob, ex, [], claims, {}, fam_replay(rp, "add-from-import", only=["optional", "union", "tuple", "abstract", "newtype", "interface"]))
+
+
 def ob_prepend(run, mir, rp):
     ob = run.ob("imports-prepended", "E2", "gen_arguments: the collected imports are placed before the converted statements "
                 "of the module", ["gen_arguments"])
@@ -306,7 +382,7 @@ def run(run):
                "outside: free-name analysis of whole outputs; NewType / ABC in convert_class (HashMap re-ordering loops)")
     run.trusted += ["rustc nightly MIR dump", "mirsym MIR semantics", "z3", "python3 ast (replay)"]
     run.bounds = {"accumulator_entries": 2}
-    for f in (ob_pairing, ob_sqrt_abc, ob_add_import, ob_prepend):
+    for f in (ob_pairing, ob_sqrt_abc, ob_add_import, ob_add_from_import, ob_prepend):
         try:
             f(run, mir, rp)
         except Unsupported as e:
